@@ -40,14 +40,32 @@ def switches_on_call(fn, callee_suffix):
     return out
 
 
+def natural_loop(fn, H):
+    """Blocks of the natural loop(s) headed by H."""
+    srcs = [p for p, _ in fn.pred[H] if p in fn.live and fn.dominates(H, p)]
+    body = {H}
+    st = list(srcs)
+    while st:
+        x = st.pop()
+        if x in body:
+            continue
+        body.add(x)
+        for p, _ in fn.pred[x]:
+            if p in fn.live:
+                st.append(p)
+    return body if srcs else set()
+
+
 def common_loop_head(fn, a, b):
-    """Innermost iterator `next` call block that dominates both blocks (the loop both sit in)."""
-    heads = [c.block for c in fn.calls() if (c.callee or "").endswith("Iterator>::next") or (c.callee or "").endswith("::next")]
-    both = [h for h in heads if fn.dominates(h, a) and fn.dominates(h, b)]
-    if not both:
-        return []
-    both.sort(key=lambda h: len(fn.dominators(h)))
-    return both[-1:]
+    """Head of the innermost loop whose body contains both blocks."""
+    best = None
+    for H in sorted(fn.live):
+        if not (fn.dominates(H, a) and fn.dominates(H, b)):
+            continue
+        body = natural_loop(fn, H)
+        if a in body and b in body and (best is None or len(body) < best[1]):
+            best = (H, len(body))
+    return [best[0]] if best else []
 
 
 def precedes_in_iteration(fn, first, second):
@@ -318,8 +336,22 @@ def r2_effect_tables(ctx):
                         nm = label_names(ev, S5, al, s5)
                         best = nm if best is None else best & nm
                 trap_ops |= best or set()
-            if trap_ops <= cls_ops:
-                ctx.ok("expr|Binary", ce.where(C0), "runtime traps on %s, classified MayTrap on %s" % (sorted(trap_ops), sorted(cls_ops)))
+            # for each trapping operator every path through the arm must join >= MayTrap (an exemption that
+            # depends on the operand's value cannot be verified here and fails closed)
+            from ..tables import peval
+            leaky = []
+            for opn in sorted(trap_ops):
+                for pth in peval(ce, 0, {"expr": "Binary", "op": opn}):
+                    if pth["end"] != "return":
+                        continue
+                    strong_hit = any(e[0] == "call" and e[1] == JOIN and any(("ExprClass::%s" % k2) in " ".join(e[3]) for k2 in ("PureMayTrap", "Impure")) for e in pth["events"])
+                    if not strong_hit:
+                        leaky.append(opn)
+                        break
+            if leaky:
+                ctx.bad("expr|Binary|exempt|%s" % ",".join(leaky), ce.where(C0), "classify_expr has a path on which `%s` is not classified as may-trap although the runtime returns DivisionByZero for it depending on the divisor's value: an unused division can be pruned together with its error" % "/".join(x.lower() for x in leaky))
+            elif trap_ops <= cls_ops:
+                ctx.ok("expr|Binary", ce.where(C0), "runtime traps on %s, classified MayTrap on %s on every path" % (sorted(trap_ops), sorted(cls_ops)))
             else:
                 ctx.bad("expr|Binary|%s" % ",".join(sorted(trap_ops - cls_ops)), ce.where(C0), "the runtime can fail on %s but classify_expr marks only %s as may-trap" % (sorted(trap_ops), sorted(cls_ops)))
         else:
@@ -432,6 +464,19 @@ def r4_dataflow_shape(ctx):
                     "liveness treats a callee's transitive capture *writes* as a definite kill, and the plan builder prunes on that verdict: a callee that writes the variable only on some paths makes a live assignment look dead")
     else:
         ctx.ok("liveness|may-write-kill", aot.where(), "kills come only from the statement's own writes")
+    # only the transitive summary sets may feed liveness / used-ness: a callee reads what its callees read
+    from ..mir import fields_read
+    for fid in ("analysis::liveness::compute_block_facts", "analysis::liveness::apply_op_transfer", "analysis::diagnostics::unused_variables",
+                "analysis::opt::compute_max_local_reference_stmt"):
+        g = ctx.need(fid)
+        ctx.touch(g)
+        rd = fields_read(g, "FunctionSummary")
+        if "direct_capture_reads" in rd:
+            ctx.bad("summary-sets|direct-reads|%s" % fid.split("::")[-1], g.where(rd["direct_capture_reads"][0]), "%s uses a callee's *direct* capture reads: variables read further down the call chain are not counted as uses, so a live assignment looks dead" % fid.split("::")[-1])
+        elif "transitive_capture_reads" in rd:
+            ctx.ok("summary-sets|transitive-reads|%s" % fid.split("::")[-1], g.where(rd["transitive_capture_reads"][0]), "transitive_capture_reads")
+        else:
+            ctx.bad("summary-sets|no-reads|%s" % fid.split("::")[-1], g.where(), "%s no longer accounts for variables read by callees" % fid.split("::")[-1])
     # block equation: subtract defs, subtract kills, then union uses; reads before writes per op
     ua = ctx.need("analysis::liveness::unused_assignments")
     ctx.touch(ua)
@@ -453,6 +498,13 @@ def r4_dataflow_shape(ctx):
     # per-op order in compute_block_facts: note_use (reads) before note_def (writes)
     nu = [c for c in cbf.calls_to("analysis::liveness::note_use") if "op.reads" in sh(ne(cbf.deep(c.args[2]))) or ".reads" in sh(ne(cbf.deep(c.args[2])))]
     nd = [c for c in cbf.calls_to("analysis::liveness::note_def") if ".writes" in sh(ne(cbf.deep(c.args[1]))) and "capture" not in sh(ne(cbf.deep(c.args[1])))]
+    # uses contributed by callees (their capture reads) belong to the same statement: they too happen before the
+    # statement's own write (`x get f()` where f reads x uses the old x)
+    nu_callee = [c for c in cbf.calls_to("analysis::liveness::note_use") if "capture_reads" in sh(ne(cbf.deep(c.args[2])))]
+    if nu_callee and nd and not precedes_in_iteration(cbf, nu_callee, nd):
+        ctx.bad("block-facts|callee-reads-after-own-write", cbf.where(nu_callee[0].block), "compute_block_facts notes the statement's own write before the reads of its callees: in `x get f()` with f reading x, x is not upward-exposed, so an earlier assignment to x in another block looks dead and is pruned")
+    elif nu_callee:
+        ctx.ok("block-facts|callee-reads-before-own-write", cbf.where(nu_callee[0].block), "callee capture reads are noted before the statement's own writes")
     if nu and nd and precedes_in_iteration(cbf, nu, nd):
         ctx.ok("block-facts|reads-before-writes", cbf.where(), "reads noted before writes per op; note_use consults defs")
     else:
